@@ -24,7 +24,7 @@ bool G_idem;
 #define IORA_LOOP_HttpClient_performRequest_1 IORA_LC( \
   __CPROVER_assigns(attempt, iora_exc, iora_exc_caught, G_attempts, G_possibly_sent, G_framing_seen, G_attempts_after_framing, G_attempts_after_sent, G_last_ok, G_sleeps, *iora_ret) \
   __CPROVER_loop_invariant(iora_exc == EXC_NONE && 0 <= attempt && attempt <= RETRIES_MAX && G_attempts == attempt && G_sleeps == attempt) \
-  __CPROVER_loop_invariant(!G_framing_seen && G_attempts_after_framing == 0 && G_attempts_after_sent == 0 && !G_last_ok) \
+  __CPROVER_loop_invariant(!G_framing_seen && G_attempts_after_framing == 0 && (G_idem || G_attempts_after_sent == 0) && 0 <= G_attempts_after_sent && G_attempts_after_sent <= attempt && !G_last_ok) \
   __CPROVER_loop_invariant(0 <= G_possibly_sent && G_possibly_sent <= attempt && (G_idem || G_possibly_sent == 0)) \
   __CPROVER_loop_invariant(attempt > 0 ==> attempt <= retries) \
   __CPROVER_decreases(RETRIES_MAX + 1 - attempt))
